@@ -129,6 +129,9 @@ func (cv0 *HookConfigV0) ConvertAndCheck(c *HookConfig) error {
 }
 
 func (cv0 *HookConfigV0) CheckSchedule(schV0 ScheduleConfigV0) error {
+	if err := CheckCrontabSteps(schV0.Crontab); err != nil {
+		return fmt.Errorf("crontab is invalid: %v", err)
+	}
 	_, err := cron.Parse(schV0.Crontab)
 	if err != nil {
 		return fmt.Errorf("crontab is invalid: %v", err)
